@@ -174,6 +174,10 @@ def clock_signature(start, end, pre, post):
 
 def shard_c12(spec, acc):
     core.boot()
+    if int(spec.get('shard', 0)) % 2 == 1:
+        # the host program has logging switched on down to DEBUG and event printing at its default (every other shard)
+        core.loud(True).__enter__()
+        acc.count('C12:shards_with_debug_logging_on')
     t_end = time.time() + spec['budget_s']
     days = window_days()
     mine = days[spec['lo']:spec['hi']:spec.get('stride', 1)]
@@ -481,6 +485,10 @@ def shard_c13(spec, acc):
         sesswl.run_case(cfg, acc, 'C13')
         acc.evaluations += 1
         acc.see('C13:session_start_times', cfg['start'][11:19])
+    if int(spec.get('shard', 0)) % 2 == 1:
+        # from here on the host program has logging switched on down to DEBUG (every other shard)
+        core.loud(True).__enter__()
+        acc.count('C13:shards_with_debug_logging_on')
     if spec.get('stride', 1) > 1:
         # the strided (quick) window skips most calendar edges: every start date of this shard's slice within three
         # days of a month boundary is added with a few lengths (weekend month ends, year ends, the leap day)
